@@ -99,7 +99,20 @@ def verify_frame(frame: bytes, kind: str):
     return None
 
 
+def check_crc(case: dict):
+    """The library's CRC-8 against the bitwise Dallas/Maxim definition."""
+    import msmart.crc8 as libcrc
+    data = bytes.fromhex(case["data"])
+    got = libcrc.calculate(data)
+    want = rc.crc8_bitwise(data)
+    if got != want:
+        return ("crc8", f"crc8.calculate({data.hex()}) = {got:#x}, bitwise CRC-8/MAXIM = {want:#x}")
+    return None
+
+
 def check_case(case: dict):
+    if case.get("op") == "crc":
+        return check_crc(case)
     if case.get("op") == "device":
         return check_device(case)
     specs = case["specs"]
@@ -204,6 +217,10 @@ def _stable_key(case) -> int:
 
 
 def _run_one(ctx, case):
+    if case.get("op") == "crc":
+        ctx.case(hash(case["data"]), len(case["data"]) > 2, cls="crc8")
+        ctx.sample("crc8", case)
+        return check_crc(case)
     if case.get("op") == "device":
         ctx.case(_stable_key(case), True, cls="device-ops")
         ctx.sample("device-ops", case)
@@ -253,6 +270,17 @@ def run(ctx) -> None:
             case = {"specs": [spec]}
             ctx.check(case, lambda c: _run_one(ctx, c))
     ctx.sweep("command classes x parameters (incl. all 4096 property-id subsets, all 511 write subsets)", n, True)
+
+    # the CRC-8 itself: every single byte (= every table entry), every byte after a non-zero prefix, and longer strings
+    import hashlib
+    k = 0
+    for i in range(256):
+        for data in (bytes([i]), bytes([0xB5, i]), bytes([i, i ^ 0xFF, 0x41]), hashlib.sha256(bytes([i])).digest()[: 1 + i % 32]):
+            k += 1
+            if ctx.mine(k):
+                case = {"op": "crc", "data": data.hex()}
+                ctx.check(case, lambda c: _run_one(ctx, c))
+    ctx.sweep("crc8 over all single bytes and prefixes", k, True)
 
     # sequences that wrap the message id
     nseq = 5 if ctx.quick else 100
